@@ -1,0 +1,66 @@
+//go:build verif
+
+// Contracts for the verification framework in /verif (comment-only file; it is
+// compiled only with -tags verif and contributes no code). Syntax: DESIGN.md §3.
+
+package subscriber
+
+// ---- manager.go: administrative / RADIUS disconnect, timeouts (C16) ----
+//
+// What a subscriber.Manager session holds: its entry in the session table and in the MAC / IP
+// indexes, and the IPv4 / IPv6 address obtained from the AddressAllocator. NAT, QoS and accounting
+// are released by the event handlers that the owner of the Manager registers (OnEvent); they see one
+// EventSessionTerminate per ended session. Every release operation is observed through a ghost
+// counter set by its contract. "Ending a session twice, or by two paths at once, has no further
+// effect": the session leaves the table in the critical section that found it, so that a second
+// TerminateSession (operator, RADIUS Disconnect, the timeout sweep) finds nothing.
+
+//@ type Manager
+//@   owns mu: sessions byMAC byIP stats
+//@   inv nonnil: self.sessions != nil && self.byMAC != nil && self.byIP != nil
+//@   inv live: forall k string :: k in self.sessions ==> self.sessions[k] != nil
+
+//@ iface AddressAllocator.ReleaseIPv4(ctx, ip)
+//@   modifies nothing
+//@   sets relIPv4 = relIPv4 + 1
+
+//@ iface AddressAllocator.ReleaseIPv6(ctx, ip)
+//@   modifies nothing
+//@   sets relIPv6 = relIPv6 + 1
+
+//@ functype EventHandler(event)
+//@   modifies nothing
+
+//@ func (m *Manager) emitEvent
+//@   requires event != nil
+//@   modifies nothing
+//@   sets termEvents = termEvents + ite(event.Type == EventSessionTerminate, 1, 0)
+
+//@ func (m *Manager) TerminateSession
+//@   ghost relIPv4 mathint = 0
+//@   ghost relIPv6 mathint = 0
+//@   ghost termEvents mathint = 0
+// a session that is not in the table (never existed, or already ended by another path): nothing is released
+//@   ensures !lockedN(1, sessionID in m.sessions) ==> err != nil && relIPv4 == 0 && relIPv6 == 0 && termEvents == 0
+// a live session: its addresses go back exactly once, one terminate event is emitted
+//@   ensures lockedN(1, sessionID in m.sessions) ==> relIPv4 == ite(lockedN(1, m.sessions[sessionID].IPv4) != nil && old(m.allocator) != nil, 1, 0)
+//@   ensures lockedN(1, sessionID in m.sessions) ==> relIPv6 == ite(lockedN(1, m.sessions[sessionID].IPv6) != nil && old(m.allocator) != nil, 1, 0)
+//@   ensures lockedN(1, sessionID in m.sessions) ==> termEvents == 1 && err == nil
+// ... and it leaves the table in the critical section that decided to end it
+// (release 1 of m.mu in program order is the one of the not-found return, release 2 ends the critical section that found the session)
+//@   ensures lockedN(1, sessionID in m.sessions) ==> unlockedN(2, sessionID !in m.sessions)
+//@   sets termCalls = termCalls + 1
+
+//@ func NewManager
+//@   ensures result != nil && fresh(result) && result.nonnil && result.live
+
+// The timeout sweep ends every session it collected through TerminateSession (which decides again
+// under the lock, so a session ended in the meantime is not ended twice) and releases nothing itself.
+//@ func (m *Manager) cleanupExpiredSessions
+//@   ghost termCalls mathint = 0
+//@   ghost relIPv4 mathint = 0
+//@   ghost relIPv6 mathint = 0
+//@   ensures termCalls == len(toTerminate) && relIPv4 == 0 && relIPv6 == 0
+
+//@ loop Manager.cleanupExpiredSessions#2
+//@   invariant termCalls == ridx && relIPv4 == 0 && relIPv6 == 0
